@@ -1337,6 +1337,14 @@ def np_subtract_outer(I, a, k):
     return nd_build(I, [[Mo.binop(I, ast.Sub(), u, v) for v in y] for u in x])
 
 
+def dill_getimport(I, a, k):
+    x = a[0]
+    if isinstance(x, tuple) or (Mo.is_list(x) and not x.nd and x.cls is None):
+        I.st.trusted.add('dill.source.getimport(list / tuple instance): text without an import statement')
+        return ''
+    raise Unsupported('dill.source.getimport of %r' % (x,))
+
+
 def np_seterr(I, a, k):
     return I.st.alloc('dict', {'invalid': 'warn', 'divide': 'warn', 'over': 'warn', 'under': 'ignore'})
 
@@ -1474,6 +1482,8 @@ def lib_lookup(I, dotted):
         'copy.copy': Builtin('copy.copy', copy_copy), 'copy.deepcopy': Builtin('copy.deepcopy', copy_deepcopy),
         'dill.copy': Builtin('dill.copy (assumed: structural copy with fresh references, as copy.deepcopy)', copy_deepcopy),
         'numbers.Integral': TypeTag('Integral'),
+        'dill.source': ModRef('dill.source'),
+        'dill.source.getimport': Builtin('dill.source.getimport (assumed: no import statement is needed for an instance of a builtin sequence type)', dill_getimport),
         'collections.abc.Callable': TypeTag('Callable'),
         'collections.Callable': TypeTag('Callable'),
         'builtins.abs': Builtin('abs', b_abs),
